@@ -179,7 +179,48 @@ func (g *gen) Program() string {
 		name := fmt.Sprintf("f%d", i)
 		var src string
 		var sh *shape
-		switch g.r.Intn(9) {
+		switch g.r.Intn(14) {
+		case 9:
+			// disjunction of structs with optional default
+			s1, _ := g.structLit(1, false)
+			s2, _ := g.structLit(1, false)
+			star := g.pick([]string{"", "*"})
+			src, sh = star+s1+" | "+s2, &shape{kind: "other"}
+		case 10:
+			// close() and embedding of a definition
+			s1, sh1 := g.structLit(1, false)
+			if len(g.defs) > 0 && g.r.Intn(2) == 0 {
+				src = "{" + g.pick(g.defs) + ", " + strings.TrimPrefix(s1, "{")
+			} else {
+				src = "close(" + s1 + ")"
+			}
+			sh = &shape{kind: "other", fields: sh1.fields}
+		case 11:
+			// earlier struct unified with a literal
+			var structs []string
+			for _, n := range g.top {
+				if k := g.shapes[n].kind; k == "struct" {
+					structs = append(structs, n)
+				}
+			}
+			s1, _ := g.structLit(1, false)
+			if len(structs) > 0 {
+				src = g.pick(structs) + " & " + s1
+			} else {
+				src = s1
+			}
+			sh = &shape{kind: "other"}
+		case 12:
+			// list of structs, possibly open
+			s1, _ := g.structLit(1, false)
+			s2, _ := g.structLit(0, false)
+			src = "[" + s1 + ", " + s2 + g.pick([]string{"", ", ...{a?: int}"}) + "]"
+			sh = &shape{kind: "list"}
+		case 13:
+			// let + hidden field
+			e, _ := g.intExpr()
+			src = "{let L = " + e + ", _p: L, a: _p, b: L}"
+			sh = &shape{kind: "other"}
 		case 0, 1, 2:
 			src, sh = g.scalar()
 		case 3, 4:
